@@ -12,7 +12,7 @@ UNITS = [llc.unit('C21_CLAUSES', replay=dict(src='replay/c21_replay.cpp', cxxfla
 # peripheral latency never skips a pending instant: plan_next_connection_event (contract stated in C23.py)
 UNITS += [dict(u, enforce=['plan_next_connection_event']) for u in _load('C23').UNITS if u['name'] == 'plan_next']
 # the call order in end_event / timeout (real bodies): received data, plan the next event with the pending instant, apply the pending indication for the NEW event counter; handle_phy_request defers LL_PHY_UPDATE_IND
-UNITS += [lle.unit(['ll_timeout', 'll_end_event', 'valid_phy_encoding', 'handle_phy_request'])]
+UNITS += [lle.unit(['ll_timeout', 'll_end_event', 'valid_phy_encoding', 'handle_phy_request', 'handle_received_data', 'handle_pending_phy_request'])]
 META = dict(
     level='other',
     explanation="link_layer<>::handle_ll_control_data and handle_pending_ll_control (link_layer.hpp, real bodies, every PDU, every connection event counter incl. wrap around): an "
@@ -26,8 +26,11 @@ META = dict(
                 "the calls recorded): received data is handled first, then the next connection event is planned with ( an indication is pending, its instant ) handed to "
                 "plan_next_connection_event, then handle_pending_ll_control is asked with the event counter AFTER planning, then the event is set up (or the link ends). "
                 "phy_update_request_impl::handle_phy_request (real body): a valid LL_PHY_UPDATE_IND is kept pending with the instant it carries (or reported at once if no PHY "
-                "changes), never answered.",
-    assumptions=["NOT extracted: handle_received_data (the early return while an indication is pending is read, not proved), handle_pending_phy_request; in handle_ll_control_data "
+                "changes), never answered; handle_pending_phy_request (real body) applies it - radio and call back get the PHYs the indication carried - and clears it. "
+                "handle_received_data (real body, loop contract over a queue of received PDUs of any content): while an indication is pending nothing is taken from the "
+                "queue; otherwise PDUs are consumed in order until the queue is empty, a PDU asks for a disconnect, a PDU has to wait for its instant (that PDU is "
+                "consumed, nothing behind it is) or the head PDU cannot be handled now - no other reason stops the processing.",
+    assumptions=["the receive queue is a ghost array of up to 5 PDUs in handle_received_data, handle_ll_control_data / L2CAP input are abstract there; in handle_ll_control_data "
                  "handle_phy_request is a stand-in that follows its contract proved in unit events (it keeps only an LL_PHY_UPDATE_IND, with the instant it carries)",
                  "the PDU layout is the default one; callees (channel map, timing parameter parser, call backs) abstract with symbolic results"],
     trusted_base=["radio / event scheduling"],
